@@ -149,7 +149,10 @@ def parse_kani_json(path):
                   "checks": pd.get("total_properties", len(checks)), "n_failed": pd.get("failed", len(failed)),
                   "undetermined": pd.get("undetermined", 0),
                   "solver_time_s": stats.get(hid, {}).get("runtime_decision_procedure_s"),
-                  "tool_error": (errs.get(hid, {}).get("has_errors") and json.dumps(errs.get(hid))[:300]) or None}
+                  "tool_error": (errs.get(hid, {}).get("has_errors") and json.dumps(errs.get(hid))[:300]) or None,
+                  # the contract clauses this harness asserts (assertion texts written from the property statements)
+                  "clauses": sorted({c.get("description", "").strip('"') for c in checks
+                                     if re.match(r'^"?C\d\d', c.get("description", ""))})}
         if status == "fail" and pd.get("undetermined", 0) and all("unwinding assertion" in f for f in res[h]["failed_checks"]):
             res[h]["status"] = "error"
             res[h]["tool_error"] = "unwinding bound too small: " + "; ".join(res[h]["failed_checks"])
